@@ -29,7 +29,7 @@ MANIFEST = {
             "input is the executable statement spec_okb, proved to imply the readable Spec.",
     "note": "Trusted: Coq kernel + vm_compute; the harness (generators, drivers, Gallina printer); "
             "testtools.testresult.doubles.StreamResult as the recording sink; queue.Queue; a filled-in timestamp is "
-            "only classified (timezone-aware UTC, within a day of now), never compared. All theorems closed under "
+            "only classified (timezone-aware UTC, between the start of the harness process and now, 2 s slack), never compared; supplied timestamps lie both in the past and in the far future. All theorems closed under "
             "the global context.",
     "technique": "Coq proof (induction on the decorator tree over an explicit store; refinement to a pure per-path "
                  "specification) + model/implementation correspondence in coqc",
@@ -85,6 +85,11 @@ TAG_STR = ["tag0", "tag1", "tag2", "tag3", "tag4", ""]                # tag 5 is
 UTC = datetime.timezone.utc
 ZONES = [UTC, datetime.timezone(datetime.timedelta(hours=2)), datetime.timezone(datetime.timedelta(hours=-5, minutes=-30))]
 NAIVE_BASE = datetime.datetime(2020, 1, 1)
+# supplied timestamps lie in the past (days 0..24) AND in the future (days 25..49 count from FUTURE_BASE): a decorator
+# that remembers a supplied time (a "monotonic clock") shows when a later missing timestamp is filled in
+FUTURE_BASE = datetime.datetime(2200, 1, 1)
+FUTURE_FROM = 25
+_T0 = datetime.datetime.now(datetime.timezone.utc)      # no filled-in "current time" can be earlier than this
 BASE = NAIVE_BASE.replace(tzinfo=UTC)
 TS_OTHER = ["F", 0, "", 12.5, ()]                                     # placeholders that are not datetimes
 GARBAGE = 4999
@@ -99,10 +104,23 @@ def ts_value(t):
     if isinstance(t, int):
         t = ["a", 0, t]
     if t[0] == "a":
-        return (NAIVE_BASE + datetime.timedelta(days=t[2])).replace(tzinfo=ZONES[t[1]])
+        return _day(t[2]).replace(tzinfo=ZONES[t[1]])
     if t[0] == "n":
-        return NAIVE_BASE + datetime.timedelta(days=t[1])
+        return _day(t[1])
     return TS_OTHER[t[1]]
+
+
+def _day(d):
+    return NAIVE_BASE + datetime.timedelta(days=d) if d < FUTURE_FROM else FUTURE_BASE + datetime.timedelta(days=d - FUTURE_FROM)
+
+
+def _day_of(naive):
+    """inverse of _day, None for a value outside the tables"""
+    for base, lo, hi in ((NAIVE_BASE, 0, FUTURE_FROM), (FUTURE_BASE, FUTURE_FROM, NDAYS)):
+        d = naive - base
+        if d.seconds == 0 and d.microseconds == 0 and 0 <= d.days < hi - lo:
+            return lo + d.days
+    return None
 
 
 # ---------------- numbers <-> python values ----------------
@@ -145,16 +163,17 @@ def canon_ts(ts):
         k = _idx(TS_OTHER, ts)
         return GARBAGE if k == GARBAGE else ["o", k]
     try:
-        d = ts.replace(tzinfo=None) - NAIVE_BASE
-        exact = d.seconds == 0 and d.microseconds == 0 and 0 <= d.days < NDAYS
+        day = _day_of(ts.replace(tzinfo=None))
+        exact = day is not None
         if ts.tzinfo is None:
-            return ["n", d.days] if exact else GARBAGE
+            return ["n", day] if exact else GARBAGE
         off = ts.utcoffset()
         for z, zone in enumerate(ZONES):
             if exact and zone.utcoffset(None) == off:
-                return ["a", z, d.days]
+                return ["a", z, day]
         now = datetime.datetime.now(UTC)
-        if off == datetime.timedelta(0) and abs(now - ts) < datetime.timedelta(days=1):
+        slack = datetime.timedelta(seconds=2)
+        if off == datetime.timedelta(0) and _T0 - slack <= ts <= now + slack:
             return "filled"
     except Exception:
         pass
@@ -690,6 +709,11 @@ def fixed_cases():
         {"tree": ["C", [["Q", None, ["K"]], ["Q", 2, ["Q", None, ["K"]]], ["Q", None, ["Q", 5, ["Z", ["K"]]]],
                         ["Q", None, ["Q", None, ["K"]]]]], "caller": [],
          "ops": [["S"]] + [["E", ev(route=r)] for r in [None] + ROUTES] + [["T"]]},
+        # a supplied timestamp far in the FUTURE (aware UTC, aware in another zone, naive) followed by missing ones, in
+        # the same run and in a later run: the missing ones are filled with the current time, whatever went before
+        {"tree": ["C", [["Z", ["K"]], ["Q", 0, ["Z", ["Z", ["K"]]]], ["K"]]], "caller": [],
+         "ops": [["S"], ["E", ev(ts=["a", 0, 31])], ["E", ev()], ["E", ev(ts=["a", 1, 40])], ["E", ev(omit=True)],
+                 ["E", ev(ts=["n", 49])], ["E", ev()], ["T"], ["S"], ["E", ev()], ["T"]]},
         # empty strings for id, file name, mime type, a tag; empty bytes
         {"tree": ["G", [5], [], [["K"], ["Q", 0, ["Z", ["K"]]], ["G", [], [5], [["K"]]]]], "caller": [[5], [1, 5]],
          "ops": [["E", ev(["l", 0], id=3, file=3, bytes=[], mime=2)], ["E", ev(["l", 1], id=4)],
